@@ -295,9 +295,9 @@ CHECKS = {
         "thorough": {"harnesses": [("16", "c02_torn_*"), ("16", "c02_resume_*"), ("32", "c02_*_t32_*")], "jobs": 8, "timeout": 3000},
         "rule": "case = (length triple, cut offset), every offset 0..=end; non-trivial = the cut falls inside a frame payload; counted from the symex log",
         "samples": ["c02_torn_q_a_c036: lengths (5,20,1), cuts 36..41 (inside the Middle frame of entry 1)",
-                    "c02_resume_q_a_n3_f0: crash after frame 0/1/2 of (5,20,1) (frame 1 = orphan First frame of entry 1), then a real writer resumes there with a new 3-byte entry; recover all"],
+                    "c02_resume_q_a_n4_f0: crash after frame 0/1/2 of (5,20,1) (frame 1 = orphan First frame of entry 1), then a real writer resumes there with a new 4-byte entry; recover all"],
         "functions": STREAM_FUNCS,
-        "bounds": {"quick": {"B": 16, "triples": "(5,20,1): 73 cuts, (9,0,30): 89 cuts; resume after every frame end with a new entry of 3 / 12 bytes"}, "thorough": {"triples": "+ (1,40,3), (2,3,25), (16,10,0)"}},
+        "bounds": {"quick": {"B": 16, "triples": "(5,20,1): 73 cuts, (9,0,30): 89 cuts; resume after every frame end with a new entry of 4 / 12 bytes"}, "thorough": {"triples": "+ (1,40,3), (2,3,25), (16,10,0)"}},
         "outside": ["crash during create_file / set_len / remove_file / GC (std::fs)", "RollingReader::into_writer resuming behind the torn tail", "behaviour of further operations after recovery; second crash", "in-flight truncate / delete_queue"],
         "assumptions": [CRC_ASSUMPTION, DEV_ASSUMPTION, "if the missing tail of the torn frame was all zeros the image equals that of a later cut, which is enumerated as its own case"],
     },
